@@ -20,11 +20,13 @@ CHECKS = {
             "converted map; embedded difficulty attributes compared with Difficulty::calculate",
             "relational monitor; entry points enumerated by hand from the public API"),
     "C05": ("runtime monitoring with the runtime as oracle: panic hook, worker exit status/signal attribution, per-API-call CPU-time "
-            "watchdog (gdb stack signature, isolated confirmation run), RLIMIT_AS + allocation-failure reporter; release sweep over the "
+            "watchdog (gdb stack signature, isolated confirmation run), RLIMIT_AS + allocation-failure reporter, per-call heap high-water "
+            "mark from a counting global allocator (budget 256 MiB + 160 B per strain section); release sweep over the "
             "adversarial domain and debug (overflow-checked) sweep over the realistic domain",
             "bounded progress instead of termination (30 CPU-s per call); domain filter evaluated by the harness; paths not driven are not judged"),
     "C06": ("runtime monitoring: invariant oracle on every decode result (sortedness, pairing via unique ids, strict control point "
-            "order, clamps), path equality bytes/str/file, reference-model comparison of TandemSorter and the legacy sort",
+            "order, clamps), path equality bytes/str/file with the decoder perturbed by other content between the entry points, "
+            "reference-model comparison of TandemSorter and the legacy sort",
             "invariants taken from the property statement; hostile inputs are generated, not enumerated"),
     "C07": ("runtime monitoring: differential oracle, three conversion entry points against each other and every mode-dispatching API "
             "against the calculation on the explicitly converted map",
@@ -46,7 +48,8 @@ CHECKS = {
             "literals and random/hostile provided-field subsets",
             "clause S3 binds only when the provided results fit, as the statement says; shapes are sampled"),
     "C13": ("runtime monitoring with a brute-force oracle: exhaustive enumeration of all small attribute shapes x misses x accuracy "
-            "grid x priorities x origins, every generated state compared with the best of ALL hit-result distributions; large shapes sampled",
+            "grid x priorities x origins, every generated state compared with the best of ALL hit-result distributions; large shapes sampled; "
+            "same oracle for plays specified on a map-based builder before try_mode/mode_or_ignore",
             "exhaustive over the stated small-shape space (evidence reports its size), exploration beyond; accuracy definition = the "
             "crate's public ScoreState::accuracy"),
     "C14": ("runtime monitoring: independent reference counts from public fields of the converted map + monotonicity / min(n,total) / "
@@ -68,7 +71,8 @@ CHECKS = {
             "taiko sound pairing length, mania key count and raw column range, catch identity)",
             "osu!standard sources from all generator profiles, key mods in three representations"),
     "C20": ("runtime monitoring + sanitizers: thread-pool run vs sequential run of the same job list with measured overlap, "
-            "ThreadSanitizer (sync feature, instrumented std), hand-over chains of a gradual calculator through threads, Miri "
+            "ThreadSanitizer (sync feature, instrumented std), hand-over chains of a gradual calculator through fresh threads and "
+            "ping-pong over persistent threads, Miri "
             "data-race detector with several scheduler seeds",
             "OS schedules are sampled; evidence records thread counts and measured overlap; a run without overlap is inconclusive"),
 }
